@@ -48,7 +48,7 @@ type Field struct {
 }
 
 type Step struct {
-	K string `json:"k"` // create start pause edit respond block direct fund
+	K string `json:"k"` // create start pause edit respond block direct fund price
 	F int    `json:"f"` // feed index
 	S int    `json:"s"` // sender (actor index; -1: not an address)
 
@@ -72,7 +72,9 @@ type Step struct {
 	Op int `json:"op,omitempty"`
 
 	// block
-	N int `json:"n,omitempty"` // number of blocks (>=1)
+	N   int   `json:"n,omitempty"`   // number of blocks (>=1)
+	Dt  int64 `json:"dt,omitempty"`  // seconds to the next block (0: 5..7)
+	Age int64 `json:"age,omitempty"` // block: the next block comes when feed F's newest value is exactly Age seconds old
 
 	// fund
 	Amt int64 `json:"amt,omitempty"`
@@ -214,7 +216,9 @@ func gen(r *lib.Rand, tier, stream string, idx int) History {
 		st := Step{K: "create", F: f, S: r.Intn(nCreators)}
 		st.Agg = r.Weighted(4, 3, 4)
 		if stream == "extreme" {
-			st.Agg = r.Intn(2)
+			// avg too: the exact-rational model decides inside the guard band only (tolerance()); for the
+			// huge magnitudes the band exceeds the rounding unit and the data is not compared
+			st.Agg = r.Weighted(3, 3, 2)
 		}
 		st.Path = r.Intn(len(fieldNames))
 		st.LH = uint64(r.Range(1, 4))
@@ -278,7 +282,11 @@ func gen(r *lib.Rand, tier, stream string, idx int) History {
 		if fs.running {
 			wPause, wStart = 3, 1
 		}
-		switch r.Weighted(8, 24, wPause, wStart, 5, 2, 2, 1) {
+		wPrice, wJump := 2, 0
+		if stream == "price" {
+			wPrice, wJump = 8, 5
+		}
+		switch r.Weighted(8, 24, wPause, wStart, 5, 2, 2, 1, wPrice, wJump) {
 		case 0: // respond
 			p := fs.provs[r.Intn(len(fs.provs))]
 			st := Step{K: "respond", F: f, P: p, Mode: r.Weighted(20, 2, 1, 1)}
@@ -356,6 +364,23 @@ func gen(r *lib.Rand, tier, stream string, idx int) History {
 			h.Steps = append(h.Steps, Step{K: "fund", S: fs.creator, Amt: r.Range(10, 300)})
 		case 7: // create again (duplicate name) or on the unknown feed
 			h.Steps = append(h.Steps, mkCreate(f))
+		case 8: // the oracle price service is asked for the feed (sometimes for an unknown one)
+			g := f
+			if r.Chance(1, 8) {
+				g = 9
+			}
+			h.Steps = append(h.Steps, Step{K: "price", F: g})
+		case 9: // a block after a long pause: values age towards / beyond the 5 minutes of block time
+			dt := r.Range(200, 320)
+			if r.Chance(1, 2) {
+				dt = r.Range(280, 305)
+			}
+			blk := Step{K: "block", N: 1, Dt: dt}
+			if r.Chance(1, 3) {
+				// the boundary itself: expired means strictly more than 300 s
+				blk = Step{K: "block", F: f, N: 1, Age: []int64{299, 300, 300, 301}[r.Intn(4)]}
+			}
+			h.Steps = append(h.Steps, blk, Step{K: "price", F: f})
 		}
 	}
 	return h
@@ -986,6 +1011,41 @@ func (rn *runner) exec() lib.Case {
 			}
 			rn.emit(lib.App("OSvc", lib.L(evs...)), o.Code())
 			step(fmt.Sprintf("respond feed%d provider %d mode %d %s -> %s %s [%s]", st.F, st.P, st.Mode, output, o.Kind, short(o.Err), strings.Join(evs, "; ")))
+		case "price":
+			// keeper.ModuleServiceRequest, the function the service module calls for the oracle price service
+			input := fmt.Sprintf(`{"header":{},"body":{"pair":"%s"}}`, feedName(st.F))
+			var result, output string
+			o := e.Try(func(ctx sdk.Context) error {
+				result, output = rn.ok.ModuleServiceRequest(ctx, input)
+				return nil
+			})
+			code, data := int64(-1), "0"
+			var res struct {
+				Code string `json:"code"`
+			}
+			if err := json.Unmarshal([]byte(result), &res); err == nil {
+				fmt.Sscan(res.Code, &code)
+			} else {
+				rn.c.Notes = append(rn.c.Notes, "price service result is not JSON: "+result)
+			}
+			if code == 200 {
+				var out struct {
+					Body struct {
+						Rate string `json:"rate"`
+					} `json:"body"`
+				}
+				if err := json.Unmarshal([]byte(output), &out); err != nil {
+					rn.c.Notes = append(rn.c.Notes, "price service output is not JSON: "+output)
+				} else {
+					data = dataZ(out.Body.Rate, &rn.c)
+				}
+			} else if output != "" {
+				rn.c.Notes = append(rn.c.Notes, "price service returned an output with code "+res.Code)
+			}
+			lib.Stat(rn.stats, "op:price")
+			lib.Stat(rn.stats, fmt.Sprintf("price:%d", code))
+			rn.emit(lib.App("OPrice", lib.Z(int64(st.F)), lib.Z(code), data), o.Code())
+			step(fmt.Sprintf("price service asked for feed%d -> %s %s %s", st.F, o.Kind, result, output))
 		case "block":
 			n := st.N
 			if n < 1 {
@@ -1004,7 +1064,19 @@ func (rn *runner) exec() lib.Case {
 				}
 				rn.emit(lib.App("OSvc", lib.L(evs...)), o.Code())
 				step(fmt.Sprintf("end block %d -> %s %s [%s]", e.Height, o.Kind, short(o.Err), strings.Join(evs, "; ")))
-				e.BeginBlock(time.Duration(5+e.Height%3) * time.Second)
+				dt := time.Duration(5+e.Height%3) * time.Second
+				if st.Dt > 0 {
+					dt = time.Duration(st.Dt) * time.Second
+				}
+				if st.Age > 0 {
+					if resp, err := rn.ok.FeedValue(e.Ctx, &oracletypes.QueryFeedValueRequest{FeedName: feedName(st.F)}); err == nil && len(resp.FeedValues) > 0 {
+						if d := resp.FeedValues[0].Timestamp.Unix() + st.Age - e.Time.Unix(); d > 0 {
+							dt = time.Duration(d) * time.Second
+							lib.Stat(rn.stats, fmt.Sprintf("price:age-%d", st.Age))
+						}
+					}
+				}
+				e.BeginBlock(dt)
 			}
 		}
 	}
